@@ -344,12 +344,25 @@ C12Clauses ==
   /\ ClauseAt("InputsYamlLoads", Obs.text_ok.yaml = 1, "file")
 
 --------------------------------------------------------------------------
+(* C09 on grids: dx is the psi difference between the x-faces of each cell; psi at the x-faces is strictly monotone in x *)
+C09Clauses ==
+  /\ \A loc \in {"centre", "ylow"} :
+       ClauseAt("DxIsFaceDifference", \A x \in XS : \A y \in YS :
+          LET pv == Obs.psivals9[MeshId(x, y) + 1]  i == x - SX0(SegX(x)) IN
+          Near(Obs.dx9[loc][x + 1][y + 1], pv[2 * i + 3] - pv[2 * i + 1], 4), loc)
+  /\ ClauseAt("PsixyXlowMonotone", \A x \in XS : \A y \in YS :
+          x + 1 \in XS => (Obs.psixl9[x + 2][y + 1] - Obs.psixl9[x + 1][y + 1]) * Obs.bpsign > 0, "xlow")
+  /\ ClauseAt("RadialListMonotone", \A k \in 1..Len(Obs.psivals9) : \A j \in 1..(Len(Obs.psivals9[k]) - 1) :
+          (Obs.psivals9[k][j + 1] - Obs.psivals9[k][j]) * Obs.bpsign > 0, "all")
+
+--------------------------------------------------------------------------
 Observe ==
   /\ stage = "file"
   /\ CASE Obs.prop = "C01" -> C01Clauses
        [] Obs.prop = "C02" -> PairClauses
        [] Obs.prop = "C03" -> PairClauses /\ C03Extra
        [] Obs.prop = "C08" -> C08GridClauses
+       [] Obs.prop = "C09" -> C09Clauses
        [] Obs.prop = "C12" -> C12Clauses
        [] Obs.prop = "C16" -> C16Clauses
        [] Obs.prop = "C05" -> C05Clauses
